@@ -1644,9 +1644,8 @@ def S1(ctx):
             return L.finish()
         o, m = L.bounds(f, hyp)
         if o is not None:
-            ctx.report_violation("S1: memory-safety obligation fails: %s (load outside [cursor, cursor+%d))" % (o.what, WIN),
-                                 {"window": bytes(mval(m, b) for b in W).hex()})
-            L.verdict = "sat"
+            L.bounds_violation("%s (load outside [cursor, cursor+%d), i.e. beyond src+maxStringSize+%d)" % (o.what, WIN, WIN - 1),
+                               {"window": bytes(mval(m, b) for b in W).hex()})
             return L.finish()
     if excl:
         L.notes.append("re-queried with exclusion(s) %s: no other difference" % sorted(excl))
@@ -1764,15 +1763,15 @@ def S3(ctx):
             # every store of the step lies in [dst cursor, dst cursor' + 32)
             hy = [z3.Not(x) for x in excl.values()]
             for off, nb, v, _ in lg:
+                L.nbounds += 1
                 m = L.refute(f, z3.Or(SR.dontcare, z3.ULE(off + nb, (newd - dbase) + 32)), hy)
                 if m is not None:
-                    ctx.report_violation("S3: a store of the step ends beyond dst cursor' + 32", {"window": bytes(mval(m, b) for b in W).hex()})
-                    L.verdict = "sat"
+                    L.bounds_violation("a store of the step ends beyond dst cursor' + 32 (the slack parseString reserves)",
+                                       {"window": bytes(mval(m, b) for b in W).hex()})
                     return L.finish()
             o, m = L.bounds(f, hy)
             if o is not None:
-                ctx.report_violation("S3: memory-safety obligation fails: %s" % o.what, {"window": bytes(mval(m, b) for b in W).hex()})
-                L.verdict = "sat"
+                L.bounds_violation(o.what, {"window": bytes(mval(m, b) for b in W).hex()})
                 return L.finish()
     if excl:
         L.notes.append("re-queried with exclusion(s) %s: no other difference" % sorted(excl))
